@@ -2073,3 +2073,126 @@ def borrow(ctx, modname, key_start, new_key):
         return
     for key, rule, fn, desc, ok, detail, loc in hit[:1]:
         ctx.ob(new_key, rule, fn, desc, ok, detail, loc)
+
+
+def header_cache_reloaded_after_replay(ctx, p):
+    """C02 / C14: replay rewrites table headers on disk; the in-memory copy of the fill mark and of the free-list head is reloaded
+    afterwards for every table that has a file - not only when some cheaper indicator suggests that a header was replayed (a
+    replayed header can keep the fill mark and move the free-list head: the stale head then points at a live entry)."""
+    F = ctx.F
+    rm = ctx.body('table::ValueTable::refresh_metadata')
+    if not rm:
+        return
+    fields = ['.ValueTable.filled', '.ValueTable.last_removed']
+    stores = {f: [bi for b_, bi in lib.calls_on_field(F, ['re:Atomic.*::store$'], f, bodies=[rm])] for f in fields}
+    reads = lib.sites_reaching(rm, ['file::TableFile::read_at', 're:TableFile::(read_at|slice_at)$'])
+    ctx.ob(p + '0 refresh-anchor', 'anchor', rm.path, 'refresh_metadata reads the file and stores the fill mark and the free-list head', bool(reads) and all(stores.values()),
+           'reads %s stores %s' % (reads, stores))
+    if not (reads and all(stores.values())):
+        return
+    rets = [r for r in rm.return_blocks() if r not in core.error_exit_blocks(rm)] or list(rm.return_blocks())
+    # branches that may skip the reload: only "the table has no file" (TableFile.map is None)
+    for f in fields:
+        bad = None
+        w = lib.ok_return_unreachable_avoiding(rm, stores[f])
+        if w is not None:
+            # every store-free way out must leave through the none-edge of a test of the mapping
+            nomap_edges = set()
+            for sw in rm.normal_blocks():
+                t = rm.term(sw)
+                if t['k'] != 'switch' or op_place(t['a']) is None:
+                    continue
+                sl = backward_slice(rm, [op_place(t['a'])])
+                if '.TableFile.map' in sl.fields and any(re.search(r'Option::<.*>::is_(none|some)$', c) for c in sl.calls) and t.get('vals') == [0] and len(t['ts']) == 2:
+                    is_none = any(re.search(r'is_none$', c) for c in sl.calls)
+                    nomap_edges.add((sw, t['ts'][1] if is_none else t['ts'][0]))
+            w2 = lib.ok_return_unreachable_avoiding(rm, stores[f], removed_edges=frozenset(nomap_edges))
+            if w2 is not None:
+                bad = lib.short_path(rm, w2)
+        ctx.ob(p + ' header-cache-reloaded-whenever-the-table-has-a-file %s' % f.split('.')[-1], 'K1-must-pass', rm.path,
+               'every successful return of refresh_metadata has stored %s, except when the table has no file' % f.split('.')[-1], bad is None, 'path that keeps the cached value: %s' % bad)
+    for f in fields:
+        for s in stores[f]:
+            ctx.ob(p + 'r reload-follows-the-header-read %s' % f.split('.')[-1], 'K2-order', rm.path, 'the stored value is stored after the header was read from the file',
+                   any(rm.dominates(r, s) for r in reads), '', rm.loc(s))
+
+
+def counted_changes_are_all_applied(ctx, p):
+    """C07 (btree columns): the sorted change list of a commit is consumed one change at a time. A change may leave the list without
+    having been handed to the planner (Node::insert / Node::on_existing, which end in write_existing_value_plan) only through the
+    shortcut "the next change has the same key and overrides this one" - and that shortcut is sound only where a change is an
+    overwrite, i.e. when the tree is NOT reference counted. In a counted tree every Set / Reference / Dereference moves the counter."""
+    F = ctx.F
+    b = ctx.body('btree::node::Node::change')
+    if not b:
+        return
+    params = [l for l in range(1, b.argc + 1) if re.search(r'^&mut &\[db::Operation<', str(b.locals[l]))]
+    ctx.ob(p + '0 change-list-anchor', 'anchor', b.path, 'Node::change takes the change list as `&mut &[Operation]`', len(params) == 1, str(params))
+    if len(params) != 1:
+        return
+    cl = params[0]
+    adv = sorted(set(bi for bi in b.normal_blocks() for st in b.blocks[bi]['s'] if st['k'] == 'assign' and st['p'][0] == cl and st['p'][1:] == ['*']))
+    apply_blocks = set()
+    for bi, t in b.calls():
+        if bi not in b.normal_blocks() or not any(n in F.bodies for n in call_names(t)):
+            continue
+        for a in t['a']:
+            pl = op_place(a)
+            # the callee is handed the LIST (a reborrow of the `&mut &[Operation]` parameter), not one of its elements
+            if pl is not None and len(pl) == 1 and re.search(r'^&mut &\[db::Operation<', str(b.locals[pl[0]])) and \
+                    cl in backward_slice(b, [pl], through_calls=False).params | ({cl} if pl[0] == cl else set()):
+                apply_blocks.add(bi)
+    ctx.ob(p + '1 advance-and-apply-anchor', 'anchor', b.path, 'Node::change advances the list in several places and hands it to planner functions', len(adv) >= 2 and len(apply_blocks) >= 2,
+           'advance blocks %s apply calls %s' % (adv, sorted(apply_blocks)))
+    heads = [h for h, body_, lat in _natural_loops(b)]
+    for n, a in enumerate(adv):
+        hs = [h for h in heads if b.dominates(h, a)] or [0]
+        w = b.find_path(hs, {a}, removed=apply_blocks, sensitive=False)
+        ok, det = True, ''
+        if w is not None:
+            ok = False
+            det = 'a change leaves the list unapplied: ' + lib.short_path(b, w)
+            for (sw, yes, no) in b.control_deps(a):
+                t = b.term(sw)
+                if t['k'] != 'switch' or op_place(t['a']) is None or t.get('vals') != [0] or len(t['ts']) != 2:
+                    continue
+                sl = backward_slice(b, [op_place(t['a'])], through_calls=False)
+                if not any(f.endswith('.ref_counted') for f in sl.fields):
+                    continue
+                # polarity: count negations on the way from the field read to the discriminant
+                l, flip = op_place(t['a'])[0], False
+                for _ in range(4):
+                    ds = [d for d in b.defs().get(l, []) if d[2] == 'assign']
+                    if len(ds) == 1 and ds[0][3]['r']['k'] == 'un' and ds[0][3]['r']['op'] == 'Not':
+                        flip = not flip
+                        l = op_place(ds[0][3]['r']['a'][0])[0]
+                    elif len(ds) == 1 and ds[0][3]['r']['k'] == 'use' and op_place(ds[0][3]['r']['a'][0]) is not None and len(op_place(ds[0][3]['r']['a'][0])) == 1:
+                        l = op_place(ds[0][3]['r']['a'][0])[0]
+                    else:
+                        break
+                counted_edge = t['ts'][0] if flip else t['ts'][1]
+                if counted_edge in no and counted_edge not in yes:
+                    ok, det = True, 'only for trees that are not reference counted'
+        ctx.ob(p + ' counted-changes-are-all-applied #%d' % n, 'K3-guard', b.path,
+               'a change is dropped from the list without being handed to insert / on_existing only on the not-reference-counted edge of a test of TablesRef.ref_counted', ok, det, b.loc(a))
+
+
+def _natural_loops(b):
+    nb = b.normal_blocks()
+    by_header = {}
+    for u in nb:
+        for v in b.succ(u):
+            if v in nb and b.dominates(v, u):
+                by_header.setdefault(v, []).append(u)
+    out = []
+    for h, latches in by_header.items():
+        body = {h}
+        stack = list(latches)
+        while stack:
+            x = stack.pop()
+            if x in body:
+                continue
+            body.add(x)
+            stack.extend(q for q in b.pred(x) if q in nb)
+        out.append((h, body, latches))
+    return out
